@@ -173,7 +173,7 @@ def run(ctx, spec):
     env.setup()
     cands = wlxml.shipped(env.REPO)
     rng = ctx.rng
-    u = c05.build_universe(ctx, rng, cands, spec['n_each'])
+    u = c05.build_universe(ctx, rng, cands, spec['n_each'], deep=False)
     if u is None:
         return
     st, s, projs, msgs = u
